@@ -35,6 +35,7 @@ ASSUMPTIONS = [
     "after a kill only 'untouched or completely fixed' is judged; after an injected OS error the reporting clause is recorded, not judged",
 ]
 PROBES = [
+    "fired:interrupt",
     "hard_linked_documents",
     "shape:dirty-chain",
     "through_api",
@@ -148,6 +149,8 @@ def _enumerate_faults(rng, sites, mode, names, tier):
         return entry
 
     def cb_fault(site):
+        if mode == "fix" and rng.random() < 0.08:
+            return {"kind": "interrupt", "file": site[1], "plan": plan(site, "interrupt")}
         act = rng.choice(["raise", "raise_after"])
         return {"kind": "cb", "file": site[1], "plan": plan(site, act, rng.choice(EXCS))}
 
@@ -160,7 +163,12 @@ def _enumerate_faults(rng, sites, mode, names, tier):
         for act in acts:
             out.append({"kind": "kill", "file": site[1], "plan": plan(site, act)})
         for err in errs:
-            out.append({"kind": "oserror", "file": site[1], "plan": plan(site, "oserror:" + err)})
+            entry = plan(site, "oserror:" + err)
+            if rng.random() < 0.3:
+                entry["sticky"] = True  # a persistent condition: retries fail as well
+            out.append({"kind": "oserror", "file": site[1], "plan": entry})
+        # Ctrl-C delivered at this step: an in-process fault that is not an Exception
+        out.append({"kind": "interrupt", "file": site[1], "plan": plan(site, "interrupt")})
         return out
 
     if tier == "thorough":
@@ -564,12 +572,18 @@ def _judge(sc, fault, stats):
         break
 
     # clause 4: no temporary files after an in-process fault
-    if kind in ("cb", "parse", "prov", "undecodable", "oserror"):
+    if kind in ("cb", "parse", "prov", "undecodable", "oserror", "interrupt"):
         new_in_work = sorted(set(work_after) - set(names) - set(sc.get("links") or {}))
         left = len(tmp_after) + len(new_in_work)
-        if kind == "oserror" and site.split("/")[1] in ("remove", "rename") and left == 1:
-            # the injected error was the refusal to remove/rename that very file
+        if kind == "oserror" and site.split("/")[1] in ("remove", "rename") and (left == 1 or fault["plan"].get("sticky")):
+            # the injected error was the refusal to remove/rename that very file (sticky:
+            # nothing can be removed any more)
             stats["leftover_tolerated_failed_remove"] += 1
+            left = 0
+        if kind == "interrupt" and site.split("/")[1] == "remove":
+            # the interrupt arrived inside a removal (possibly the clean-up's own): that
+            # file, and whatever the interrupted clean-up had not reached, stays
+            stats["leftover_tolerated_interrupted_remove"] += 1
             left = 0
         if left:
             out.append(
